@@ -139,6 +139,8 @@ def judge(gen, typ, payload, layout, viol, obs):
         return 1
     for path, kind, rv, gv in X.compare(ref, got):
         field = path.replace("[]", "")
+        if field.startswith("names."):
+            field = "names.name"
         if kind == "na-as-value":
             mech = f"na-sentinel-decoded-as-value:{layout.split('.')[0]}.{_lay(layout)}.{field.split('.')[-1]}"
         else:
